@@ -171,6 +171,37 @@ class ObjT(TypeSpec):
         raise NotImplementedError("objects are replayed by the property's own harness")
 
 
+class AttsDictT(TypeSpec):
+    """a FrozenAttributes / kwargs dict with a concrete key set and symbolic (non-zero) values: one case of the
+    complete finite split over which keys are present"""
+
+    def __init__(self, present):
+        self.present = tuple(present)
+
+    def fresh(self, name, st):
+        from .values import DictV
+        d = {}
+        for k in self.present:
+            t = fresh(f"{name}_{k}", T.I)
+            st.assume(t != 0)
+            d[k] = Sym("int", t)
+        return st.alloc(DictV(d))
+
+    def concretize(self, value, model, cx):
+        raise NotImplementedError
+
+
+class AttsT(TypeSpec):
+    """attribute dict as a value of the Atts datatype (0 = key absent)"""
+    tag = "atts"
+
+    def fresh(self, name, st):
+        return Sym("atts", fresh(name, T.Atts))
+
+    def concretize(self, value, model, cx):
+        return cx.atts_of(cx.lookup(value.t))
+
+
 class Shape:
     def __init__(self, name, types, requires=None):
         self.name, self.types, self.requires = name, types, requires
@@ -232,6 +263,9 @@ def specval(v, st=None, ex=None):
         from .values import ObjV
         if isinstance(o, ObjV):
             return NS({f: specval(x, st, ex) for f, x in o.fields.items()})
+        from .values import DictV
+        if isinstance(o, DictV):
+            return {k: specval(x, st, ex) for k, x in o.items.items()}
         if isinstance(o, ListV):
             if ex is not None:
                 t, _ = ex.list_term(o, st)
